@@ -864,12 +864,17 @@ func bigCases(r *gen.Rng, level int) []func() {
 			doWsLoopT(msgs, "["+strings.Join(ts, ";")+"]")
 		})
 	}
-	for _, n := range []int{65535, 65536, 65537} {
-		enc(n)
-		dec([]int{n}, []bool{n == 65536}, false, 0)
-	}
-	loop([]int{65535, 65536})
+	// level 1 (quick tier): the two sides of the 16-bit/64-bit boundary of the encoder and one
+	// masked 64-bit-length frame for the decoder (each large literal costs seconds of coqc time)
+	enc(65535)
+	enc(65536)
+	dec([]int{65536}, []bool{true}, false, 0)
 	if level >= 2 {
+		enc(65537)
+		dec([]int{65535}, []bool{false}, false, 0)
+		dec([]int{65536}, []bool{false}, false, 0)
+		dec([]int{65537}, []bool{false}, false, 0)
+		loop([]int{65535, 65536})
 		for _, n := range []int{65534, 70000, 131072} {
 			enc(n)
 			dec([]int{n}, []bool{true}, false, 1)
